@@ -17,7 +17,7 @@ var replyTexts = []string{"4.1.1 Mailbox busy", "5.1.1 User unknown", "Service n
 
 func genRcpt(r *Rng, i int) string {
 	pool := []string{"rcpt%d@example.com", "other.rcpt%d@example.org", "\"quoted rcpt %d\"@example.com", "Rcpt Name <named%d@example.net>", "rcpt+tag%d@example.com",
-		"pct%%s.rcpt%d@example.com", "user%%%%eu%d@example.com", "bob%%example.org%d@relay.example.com"}
+		"pct%%s.rcpt%d@example.com", "user%%%%eu%d@example.com", "bob%%example.org%d@relay.example.com", "empfänger%d@example.com", "受信者%d@example.jp"}
 	return fmt.Sprintf(pool[r.Intn(len(pool))], i)
 }
 
@@ -81,8 +81,15 @@ func genScenario(r *Rng, maxMsgs, maxRcpts int) *SmtpScenario {
 		if r.Chance(8) {
 			m.From = fmt.Sprintf("sender%%d%d@example.com", i)
 		}
+		if r.Chance(8) {
+			// internationalised senders (whether the server offers SMTPUTF8 or not)
+			m.From = fmt.Sprintf([]string{"jürgen.müller%d@example.com", "送信者%d@example.com", "عل\u200cرضا%d@example.com", "\"quoted ü %d\"@example.com"}[r.Intn(4)], i)
+		}
 		if r.Chance(10) {
 			m.EnvFrom = fmt.Sprintf("bounce%d@example.com", i)
+			if r.Chance(20) {
+				m.EnvFrom = fmt.Sprintf("rücklauf%d@example.com", i)
+			}
 		}
 		if r.Chance(4) {
 			m.From = ""
@@ -107,7 +114,7 @@ func genScenario(r *Rng, maxMsgs, maxRcpts int) *SmtpScenario {
 			m.RenderFail = true
 			m.FailEarly = r.Bool()
 			if !m.FailEarly {
-				m.FailVia = []string{"", "seeker", "seeker-eof"}[r.Intn(3)]
+				m.FailVia = []string{"", "seeker", "seeker-eof", "sign"}[r.Intn(4)]
 			}
 		}
 		m.ToViaAdd = len(m.To) > 1 && r.Chance(35)
@@ -121,6 +128,8 @@ func genScenario(r *Rng, maxMsgs, maxRcpts int) *SmtpScenario {
 	}
 	if r.Chance(6) {
 		sc.CtxCancelInMsg = 1 + r.Intn(len(sc.Msgs))
+	} else if r.Chance(8) {
+		sc.CtxCancelAtPos = 1 + r.Intn(7)
 	}
 	if sc.TLS == "" && r.Chance(15) {
 		// the Client has been used before: against a server with other capabilities, with failures
